@@ -16,6 +16,7 @@ import (
 	cbytes "github.com/jsightapi/jsight-schema-core/bytes"
 	"github.com/jsightapi/jsight-schema-core/errs"
 	jdoc "github.com/jsightapi/jsight-schema-core/formats/json"
+	"github.com/jsightapi/jsight-schema-core/fs"
 	ljson "github.com/jsightapi/jsight-schema-core/json"
 	"github.com/jsightapi/jsight-schema-core/kit"
 	"github.com/jsightapi/jsight-schema-core/notations/jschema"
@@ -42,21 +43,58 @@ type project struct {
 
 // build creates fresh schema objects for a project and registers rules and
 // types in the given order. Errors of AddRule/AddType are returned, not hidden.
+// The objects of a project are created through every public constructor in turn (New with a string, New with a
+// byte slice, FromFile over fs.NewFile, New with bytes.Bytes): which one is a function of the text, so that a case
+// always builds the same way.
+func ctorMode(name, text string) int { return (len(name)*7 + len(text)) % 4 }
+
+func newJSchemaVia(name, text string) *jschema.JSchema {
+	switch ctorMode(name, text) {
+	case 1:
+		return jschema.New(name, []byte(text))
+	case 2:
+		return jschema.FromFile(fs.NewFile(name, text))
+	case 3:
+		return jschema.New(name, cbytes.NewBytes(text))
+	}
+	return jschema.New(name, text)
+}
+
+func newEnumVia(name, text string) *enum.Enum {
+	switch ctorMode(name, text) {
+	case 1:
+		return enum.New(name, []byte(text))
+	case 2:
+		return enum.FromFile(fs.NewFile(name, []byte(text)))
+	}
+	return enum.New(name, text)
+}
+
+func newRegexVia(name, text string) *regex.RSchema {
+	switch ctorMode(name, text) {
+	case 1:
+		return regex.New(name, []byte(text))
+	case 2:
+		return regex.FromFile(fs.NewFile(name, text))
+	}
+	return regex.New(name, text)
+}
+
 func (p project) build() (*jschema.JSchema, error) {
-	s := jschema.New("root", p.Root)
+	s := newJSchemaVia("root", p.Root)
 	for _, r := range p.Rules {
-		if err := s.AddRule(r.Name, enum.New(r.Name, r.Text)); err != nil {
+		if err := s.AddRule(r.Name, newEnumVia(r.Name, r.Text)); err != nil {
 			return s, err
 		}
 	}
 	for _, t := range p.Types {
 		var ts schema.Schema
 		if t.Regex {
-			ts = regex.New(t.Name, t.Text)
+			ts = newRegexVia(t.Name, t.Text)
 		} else {
-			tt := jschema.New(t.Name, t.Text)
+			tt := newJSchemaVia(t.Name, t.Text)
 			for _, r := range p.Rules {
-				if err := tt.AddRule(r.Name, enum.New(r.Name, r.Text)); err != nil {
+				if err := tt.AddRule(r.Name, newEnumVia(r.Name, r.Text)); err != nil {
 					return s, err
 				}
 			}
